@@ -227,6 +227,21 @@ class Builder:
         if self.chance(45):
             for k in DATA_KEYS[: self.integer(1, 2)]:
                 n["data"][k] = self.expr(scope)
+        dyn = self.integer(0, 99) if self.cfg.get("dynslots", True) else 99
+        if dyn < 10:
+            # dynamic slot name: {% with nK="a" %}{% slot nK ... %}
+            v = self.fresh("n")
+            n["nvar"] = v
+            n["c"] = self.nodes(scope.extend([v]), depth + 1, comp_index, 0, "slotdefault")
+            return {"t": "with", "n": v, "e": {"lit": name}, "c": [n]}
+        if dyn < 16 and not n.get("default") and not n.get("required") and len(name) == 1:
+            # one slot tag rendered once per name: {% for nK in "ab" %}{% slot nK ... %}
+            v = self.fresh("n")
+            other = self.pick([x for x in ("a", "b") if x != name])
+            n["nvar"] = v
+            n["fornames"] = [name, other] if self.chance(50) else [other, name]
+            n["c"] = self.nodes(scope.extend([v], loop=True), depth + 1, comp_index, 0, "slotdefault")
+            return {"t": "for", "v": v, "l": {"lit": "".join(n["fornames"])}, "c": [n]}
         n["c"] = self.nodes(scope, depth + 1, comp_index, 0, "slotdefault")
         return n
 
@@ -433,11 +448,12 @@ def collect_slots(nodes):
     out = {}
     for n in walk(nodes):
         if n["t"] == "slot":
-            s = out.setdefault(n["name"], {"name": n["name"], "keys": [], "default": False})
-            for k in n.get("data") or {}:
-                if k not in s["keys"]:
-                    s["keys"].append(k)
-            s["default"] = s["default"] or bool(n.get("default"))
+            for nm in n.get("fornames") or [n["name"]]:
+                s = out.setdefault(nm, {"name": nm, "keys": [], "default": False})
+                for k in n.get("data") or {}:
+                    if k not in s["keys"]:
+                        s["keys"].append(k)
+                s["default"] = s["default"] or bool(n.get("default"))
     return list(out.values())
 
 
